@@ -182,3 +182,88 @@ pub fn self_test() -> (f64, usize) {
     }
     (worst, n)
 }
+
+// ---------------------------------------------------------------------------------------
+// tanh-sinh quadrature and the one-loop two-point integral in momentum space
+// ---------------------------------------------------------------------------------------
+/// integral of f over (a,b) by double-exponential (tanh-sinh) quadrature
+pub fn tanh_sinh<F: Fn(f64) -> f64>(f: F, a: f64, b: f64, h: f64) -> f64 {
+    let c = 0.5 * (a + b);
+    let d = 0.5 * (b - a);
+    let mut s = 0.0;
+    let n = (3.6 / h).ceil() as i64;
+    for j in -n..=n {
+        let t = j as f64 * h;
+        let u = std::f64::consts::FRAC_PI_2 * t.sinh();
+        let ch = u.cosh();
+        let x = u.tanh();
+        let w = std::f64::consts::FRAC_PI_2 * t.cosh() / (ch * ch);
+        // distance to the end points computed without cancellation
+        let one_minus = 1.0 / (u.exp() * ch); // 1 - tanh(u) for u>0 ; for u<0 it is 1+|tanh|
+        let xx = if u >= 0.0 { c + d * (1.0 - one_minus) } else { c - d * (1.0 - 1.0 / ((-u).exp() * ch)) };
+        let _ = x;
+        if xx <= a || xx >= b || w == 0.0 {
+            continue;
+        }
+        let v = f(xx);
+        if v.is_finite() {
+            s += w * v;
+        }
+    }
+    s * d * h
+}
+
+/// int d^D k (k^2+m1^2)^-a ((k+p)^2+m2^2)^-b  in momentum space (radial x angular quadrature),
+/// m1, m2 > 0, p = |p| >= 0.
+pub fn bubble_quadrature(d: usize, a: f64, b: f64, m1: f64, m2: f64, p: f64) -> f64 {
+    let h = 1.0 / 24.0;
+    // peaks of the integrand sit at k = 0 and (radially) at k = p: split there so that every
+    // peak is at an end point, where the double-exponential rule is at its best
+    if d == 1 {
+        let f = |k: f64| (k * k + m1 * m1).powf(-a) * ((k + p) * (k + p) + m2 * m2).powf(-b);
+        let right = |t: f64| f(t / (1.0 - t)) / ((1.0 - t) * (1.0 - t));
+        let left = |t: f64| f(-p - t / (1.0 - t)) / ((1.0 - t) * (1.0 - t));
+        let mid = if p > 0.0 { tanh_sinh(|k| f(k), -p, 0.0, h) } else { 0.0 };
+        return tanh_sinh(right, 0.0, 1.0, h) + tanh_sinh(left, 0.0, 1.0, h) + mid;
+    }
+    let df = d as f64;
+    let area = 2.0 * PI.powf((df - 1.0) / 2.0) / gamma((df - 1.0) / 2.0);
+    let radial = |k: f64| {
+        let inner = |th: f64| th.sin().powi(d as i32 - 2) * (k * k + 2.0 * k * p * th.cos() + p * p + m2 * m2).powf(-b);
+        let ang = tanh_sinh(inner, 0.0, PI, h);
+        k.powi(d as i32 - 1) * (k * k + m1 * m1).powf(-a) * ang
+    };
+    let tail = |t: f64| radial(p + t / (1.0 - t)) / ((1.0 - t) * (1.0 - t));
+    let head = if p > 0.0 { tanh_sinh(|k| radial(k), 0.0, p, h) } else { 0.0 };
+    area * (head + tanh_sinh(tail, 0.0, 1.0, h))
+}
+
+/// self-test of the quadrature against closed forms; returns the largest relative error
+pub fn quadrature_self_test() -> f64 {
+    let mut worst: f64 = 0.0;
+    // unit weights, D = 1 and D = 3
+    for &(m1, m2, p) in &[(1.0, 2.0, 1.5), (0.5, 0.75, 3.0), (2.0, 2.0, 0.25)] {
+        let e1 = PI * (m1 + m2) / (m1 * m2 * ((m1 + m2) * (m1 + m2) + p * p));
+        let q1 = bubble_quadrature(1, 1.0, 1.0, m1, m2, p);
+        worst = worst.max(((q1 - e1) / e1).abs());
+        let e3 = 2.0 * PI * PI / p * (p / (m1 + m2)).atan();
+        let q3 = bubble_quadrature(3, 1.0, 1.0, m1, m2, p);
+        worst = worst.max(((q3 - e3) / e3).abs());
+        if std::env::var("QUAD_DEBUG").is_ok() {
+            eprintln!("unit bubble m1={} m2={} p={}: D=1 {:e} D=3 {:e}", m1, m2, p, ((q1 - e1) / e1).abs(), ((q3 - e3) / e3).abs());
+        }
+    }
+    // tadpole limit b = 0, D = 1..6
+    for d in 1..=6usize {
+        let df = d as f64;
+        let a = df / 2.0 + 0.7;
+        let m: f64 = 1.25;
+        let e = (df / 2.0 * PI.ln() + ln_gamma(a - df / 2.0) - ln_gamma(a) + (df / 2.0 - a) * (m * m).ln()).exp();
+        let qv = bubble_quadrature(d, a, 0.0, m, 1.0, 0.8);
+        if std::env::var("QUAD_DEBUG").is_ok() {
+            eprintln!("tadpole D={} rel err {:e}", d, ((qv - e) / e).abs());
+        }
+        worst = worst.max(((qv - e) / e).abs());
+    }
+    worst
+}
